@@ -50,15 +50,16 @@ Definition shift_sig (h : qsig) (a : qrow) : qsig :=
 (* exponent rows of s_h * h as the implementation computes them *)
 Definition product_rows (symbolic : bool) (n : nat) (s h : qsig) : list qrow :=
   if symbolic then
-    (* Variable coefficients: a term disappears only if h's coefficient is exactly 0 *)
+    (* Variable coefficients: a term v_i*h_j disappears only if h's coefficient is exactly 0
+       (and never when the product has a single term).  Only membership in L is tested, so
+       order and repetitions of the rows are immaterial. *)
     let pairs := flat_map (fun t2 => map (fun t1 => (round_row (vaddq (fst t1) (fst t2)), snd t2)) s) h in
-    let rows := sort_unique (map fst pairs) in
-    let dup := negb (Nat.eqb (length rows) (length pairs)) in
-    let keep := filter (fun r => existsb (fun p => qrow_eqb (fst p) r && negb (qiszero (snd p))) pairs) rows in
     match pairs with
-    | [_] => map fst pairs
-    | _ => match keep with [] => [repeat 0%Q n] | _ => if dup then keep else
-             filter (fun r => existsb (fun p => qrow_eqb (fst p) r && negb (qiszero (snd p))) pairs) (map fst pairs) end
+    | [p] => [fst p]
+    | _ =>
+      let keep := filter (fun r => existsb (fun p => qrow_eqb (fst p) r && negb (qiszero (snd p))) pairs)
+                         (map fst pairs) in
+      match keep with [] => [repeat 0%Q n] | _ => keep end
     end
   else map fst (q_mul n s h).
 
